@@ -400,6 +400,103 @@ def request_oracle(case):
     return None
 
 
+# ------------------------------------------------------------------ streamed ranges with SHORT client-supplied borders
+# (/repo 5ace897: the borders of a range-stream watch-create are handed to the scanner as they are; the TiKV adapter clips
+# the end into every region and adjustPartitionsBorders hands it to Decode, which indexed out of range on a key shorter
+# than magic + split byte + revision — in the scan goroutine, which nothing recovers: the process died)
+
+MAGIC_B = b"\x57\xfb\x80\x8b"
+
+
+def short_borders(r):
+    """non-empty byte strings too short to be an internal key: 1 byte, the bare magic (4), up to 12 bytes"""
+    import struct
+    return [bytes([r.choice([0x00, 0x01, 0x2f, 0x57, 0x58, 0xff])]),          # 1 byte
+            MAGIC_B[:r.choice([2, 3])],
+            MAGIC_B,                                                          # 4 bytes: just the magic
+            MAGIC_B + bytes([r.choice([0x24, 0x2f, 0x00, 0xff])]),            # 5
+            MAGIC_B + b"$" + b"\x00" * 3,                                     # 8: magic, split byte at len-9 < 0 ...
+            MAGIC_B + b"/r/" + bytes([r.randint(0x61, 0x64)]),                # 8: magic + a raw key, no revision
+            MAGIC_B + b"$" + struct.pack(">Q", r.choice([0, 7]))[:7],         # 12: one byte short of the shortest internal key
+            MAGIC_B + b"/r/a$" + b"\x00" * 3,                                 # 12
+            b"/r/" + bytes([r.randint(0x61, 0x64)])]                          # a raw key (no magic at all)
+
+
+def gen_short_border_case(seed, i, engine):
+    import struct
+    from ..gen import hx, rng_for
+    from . import c16
+    r = rng_for(seed, "c20sb/%d" % i)
+    keys = [b"/r/a", b"/r/b", b"/r/c", b"/r/d"]
+    cfg = c16.cfg_line(engine)
+    if engine == "tikv":
+        # a multi-region mock cluster: borders at internal keys of the key pool (index records and version records)
+        ks = sorted(r.sample(keys, r.choice([1, 2, 3])))
+        cfg += " regions=" + ",".join(hx(MAGIC_B + k + b"$" + struct.pack(">Q", r.choice([0, 0, c16.INIT + 2]))) for k in ks)
+    lines = [cfg]
+    for k in keys[:3]:
+        lines += [c16.render_txn(c16.t_create(k, b"v" + k[-1:])), "rev"]
+    rev = c16.INIT + 3
+    lo_i, hi_i = MAGIC_B + b"/r/$" + b"\x00" * 8, MAGIC_B + b"/r0$" + b"\x00" * 8     # well-formed internal borders
+    n = 0
+    shorts = short_borders(r)
+    r.shuffle(shorts)
+    for sb in shorts[:r.randint(4, len(shorts))]:
+        other = r.choice([lo_i, hi_i, b"/r/", b"/r0", r.choice(shorts), MAGIC_B + b"/r/b$" + struct.pack(">Q", r.choice([0, c16.INIT + 2]))])
+        for (k, e) in ((other, sb), (sb, other)):                       # the short border as range_end, and as key
+            n += 1
+            lines += ["watch s%d %s %s %d" % (n, hx(k), hx(e), -rev), "wevents s%d" % n]
+        if r.random() < 0.3:
+            n += 1
+            lines += ["watch s%d %s %s %d" % (n, hx(sb), hx(sb + b"\xff"), -r.choice([rev, rev - 1, 1, rev + 50])), "wevents s%d" % n]
+    # the node must still serve: a transaction and a range
+    lines += [c16.render_txn(c16.t_create(b"/r/zz-after", b"p")), "rev", c16.FULL]
+    return c16.EtcdCase("etcd", lines, {"engine": engine, "kind": "short-borders"})
+
+
+def short_border_oracle(case):
+    if case.impl and (case.impl[-1].startswith("CRASHED") or case.impl[-1] == "TIMEOUT"):
+        last = len(case.impl) - 1
+        req = case.lines[last] if last < len(case.lines) else "?"
+        return ("the node process died / hung at line %d (`%s`): %s" % (last + 1, req, case.impl[-1][:400]), "short-border-crash")
+    for i, (line, out) in enumerate(zip(case.lines, case.impl)):
+        if " PANIC" in out:
+            return ("line %d: %s panicked: %s" % (i + 1, line, out[:200]), "short-border-panic")
+        t = line.split()
+        if t[0] == "watch" and not out.endswith(" created"):
+            return ("line %d: %s -> %s: a watch-create must be answered `created`" % (i + 1, line, out[:200]), "short-border-unanswered")
+        if t[0] == "wevents" and "656f66:" not in out:
+            return ("line %d: %s -> %s: the streamed range did not send its terminator" % (i + 1, line, out[:200]), "short-border-no-terminator")
+    if len(case.impl) < len(case.lines):
+        return ("only %d of %d requests answered" % (len(case.impl), len(case.lines)), "short-border-crash")
+    txn, rng = case.impl[-3], case.impl[-1]
+    if not txn.startswith("txn ok=1"):
+        return ("after the streamed ranges a create is not served: %s" % txn[:200], "short-border-not-serving")
+    if "2f722f7a7a2d6166746572" not in rng:
+        return ("after the streamed ranges the range read does not show the key just created: %s" % rng[:300], "short-border-not-serving")
+    return None
+
+
+def check_short_borders(rep, tier, seed):
+    n = 18 if tier == "quick" else 400
+    engines = ["tikv", "tikv", "tikv", "memkv", "tikv", "badger"]
+    cases = [gen_short_border_case(seed, i, engines[i % len(engines)]) for i in range(n)]
+    core.run_cases(cases)
+    for c in cases:
+        rep.count_case(c)
+        hit = short_border_oracle(c)
+        if hit:
+            if core.handle_oracle_hit(rep, "C20", hit[1], c, hit[0], hit[1]):
+                return True
+            continue
+        if c.diff() is not None:
+            core.handle_diff(rep, "C20", "correspondence-short-borders", c)
+            return True
+    rep.assumptions += ["streamed ranges through the etcd Watch API (negative start revision) with client-supplied borders of 1..12 bytes as "
+                        "key and as range_end, on single- and multi-region engines, each script followed by a create and a range read"]
+    return False
+
+
 def check_burst(rep, tier, glob):
     """concurrent FIRST emission of a metric name (several request goroutines at once after start-up): the client's
     get-or-create must not register the vector twice (the Prometheus registry panics on a duplicate)"""
@@ -445,6 +542,8 @@ def check(rep, tier, seed):
         return True
     tbl = parse_table()
     if check_burst(rep, tier, tbl["globals"][0] if tbl["globals"] else []):
+        return True
+    if check_short_borders(rep, tier, seed):
         return True
     if check_requests(rep, tier, seed):
         return True
